@@ -95,12 +95,15 @@ func isClientActive() bool {
 	return len(clients) > 0
 }
 
-func processAllClients(op func(id int64, cs *clientState)) {
+// Calls op for every client of the emulator that owns dss. The registry is
+// shared by all emulators in the process; one emulator must not list, kill or
+// unblock the clients of another.
+func processAllClients(dss *dataStoreSet, op func(id int64, cs *clientState)) {
 	clientsMu.Lock()
 	defer clientsMu.Unlock()
 
 	for id, cs := range clients {
-		if !cs.client.IsCloseRequested() {
+		if cs.dss == dss && !cs.client.IsCloseRequested() {
 			op(id, cs)
 		}
 	}
